@@ -88,6 +88,7 @@ pub fn ps(pubs: &[usize], subs: usize, order: &str, faults: bool, close: bool, h
         any_order: false,
         owner: None,
         gate: false,
+        burst_reg: false,
     }
 }
 
@@ -190,6 +191,7 @@ pub fn rr(tag: &str, requestors: Vec<Vec<ReqKind>>, repliers: Vec<Vec<ReplyMode>
         owner,
         any_order: false,
         gate: false,
+        burst_reg: false,
     }
 }
 
@@ -292,6 +294,45 @@ fn many_peer_families(what: &str, out: &mut Vec<Spec>) {
     }
     if what == "ps" || what == "all" {
         out.push(Spec { scn: Scn::Ps(ps(&[1; 12], 12, "sf", false, false, false)), bound: 1 });
+    }
+    // a burst of concurrent opens: every socket is in the registration channel at the first poll
+    if what == "rr" || what == "all" {
+        for n in [17usize, 24, 40] {
+            let mut r = rr("many", vec![plain(1); n], vec![vec![]], "rf", (0..n as u64).rev().collect(), false, false, false, false, "C02");
+            r.burst_reg = true;
+            r.name.push_str(":burstreg");
+            out.push(Spec { scn: Scn::Rr(r), bound: 1 });
+        }
+    }
+    // ... most of them idle at that moment (only the last one registered has something to say)
+    if what == "rr" || what == "all" {
+        for n in [17usize, 20, 33] {
+            let mut scripts = vec![Vec::new(); n];
+            scripts.push(plain(1));
+            let mut r = rr("idle-burst", scripts, vec![vec![]], "rf", (0..=n as u64).collect(), false, false, false, false, "C02");
+            r.burst_reg = true;
+            r.name.push_str(":burstreg");
+            out.push(Spec { scn: Scn::Rr(r), bound: 1 });
+        }
+    }
+    if what == "ps" || what == "all" {
+        // idle publishers and subscribers, one publisher with a message registered last
+        for n in [17usize, 33] {
+            let mut pubs = vec![0usize; n];
+            pubs.push(1);
+            let mut p = ps(&pubs, 2, "sf", false, false, false);
+            p.burst_reg = true;
+            p.name.push_str(":idle:burstreg");
+            out.push(Spec { scn: Scn::Ps(p), bound: 1 });
+        }
+    }
+    if what == "ps" || what == "all" {
+        for (np, ns) in [(20usize, 3usize), (3, 30)] {
+            let mut p = ps(&vec![1; np], ns, "sf", false, false, false);
+            p.burst_reg = true;
+            p.name.push_str(":burstreg");
+            out.push(Spec { scn: Scn::Ps(p), bound: 1 });
+        }
     }
 }
 
